@@ -8716,8 +8716,11 @@ wp_mod_main:
 				}
 				if (n <= -1)
 				{
-					/* -n is the number of characters required */
-					GROW_WITH_INC (&rtx->format.tmp, -n);
+					/* -n is the number of characters required. the field was
+					 * narrower than the number. enlarge the buffer only if
+					 * the buffer itself is too small */
+					if ((hawk_oow_t)-n > rtx->format.tmp.len)
+						GROW_WITH_INC (&rtx->format.tmp, (hawk_oow_t)-n - rtx->format.tmp.len);
 					fmt_width = -n;
 					continue;
 				}
@@ -9610,8 +9613,11 @@ wp_mod_main:
 				}
 				if (n <= -1)
 				{
-					/* -n is the number of characters required */
-					GROW_MBSBUF_WITH_INC (&rtx->formatmbs.tmp, -n);
+					/* -n is the number of characters required. the field was
+					 * narrower than the number. enlarge the buffer only if
+					 * the buffer itself is too small */
+					if ((hawk_oow_t)-n > rtx->formatmbs.tmp.len)
+						GROW_MBSBUF_WITH_INC (&rtx->formatmbs.tmp, (hawk_oow_t)-n - rtx->formatmbs.tmp.len);
 					fmt_width = -n;
 					continue;
 				}
